@@ -879,6 +879,20 @@ def _value_tomof(
 _REAL_SPECIAL_KEYVALUES = {'inf': 'INF', '-inf': '-INF', 'nan': 'NaN'}
 
 
+def _copy_value(value):
+    """
+    Return a copy of a property or parameter value for use by the copy()
+    methods: Embedded objects and references (CIM objects, which are mutable)
+    are copied, also as items of an array value.
+    """
+    if isinstance(value, list):
+        return [_copy_value(v) for v in value]
+    if isinstance(value, (CIMInstance, CIMClass, CIMInstanceName,
+                          CIMClassName)):
+        return value.copy()
+    return value
+
+
 def _cim_keybinding(key, value):
     """
     Return a keybinding value, from dict item input (key+value).
@@ -4916,7 +4930,7 @@ class CIMProperty(_CIMComparisonMixin, SlottedPickleMixin):
         """
         return CIMProperty(
             self.name,
-            self.value,
+            _copy_value(self.value),
             type=self.type,
             class_origin=self.class_origin,
             array_size=self.array_size,
@@ -6250,7 +6264,7 @@ class CIMParameter(_CIMComparisonMixin, SlottedPickleMixin):
             reference_class=self.reference_class,
             is_array=self.is_array,
             array_size=self.array_size,
-            value=self.value,
+            value=_copy_value(self.value),
             embedded_object=self.embedded_object,
             qualifiers=self.qualifiers)  # setter copies
 
